@@ -34,6 +34,20 @@ GOENV = dict(os.environ, GOFLAGS='-mod=mod', GOPROXY='off', GOSUMDB='off', GOTOO
 ALLOW = 'github.com/reactivego/ivg/...,vph/...,image/color,image,strings,bytes,golang.org/x/image/math/f32'
 INITS = 'github.com/reactivego/ivg/...,vph/...,image/color'
 
+DEFAULT_MERGE = [
+    'github.com/reactivego/ivg.Is1', 'github.com/reactivego/ivg.Is1$1', 'github.com/reactivego/ivg.Is2',
+    'github.com/reactivego/ivg.Is2$1', 'github.com/reactivego/ivg.Is3', 'github.com/reactivego/ivg.ValidAlphaPremulColor',
+    'github.com/reactivego/ivg.ValidGradient', 'github.com/reactivego/ivg.DecodeColor1',
+    '(github.com/reactivego/ivg.Color).Resolve', '(github.com/reactivego/ivg.Color).Encode1',
+    '(github.com/reactivego/ivg.Color).Encode2', '(github.com/reactivego/ivg.Color).Encode3Direct',
+    '(github.com/reactivego/ivg.Color).Encode4', '(github.com/reactivego/ivg.Color).Encode3Indirect',
+    '(github.com/reactivego/ivg.Color).Is1', '(github.com/reactivego/ivg.Color).Is2', '(github.com/reactivego/ivg.Color).Is3',
+    '(github.com/reactivego/ivg.Color).RGBA',
+    'github.com/reactivego/ivg/decode.isNaNOrInfinity',
+    '(github.com/reactivego/ivg/render.Spread).Clamp',
+    'vph/ref.Color1', 'vph/ref.digit', 'vph/ref.Resolve1',
+]
+
 PROG = None
 CFG = None
 ARGS = None
@@ -158,13 +172,26 @@ def eval_pred(pred, nondet):
     return eval(pred, {'__builtins__': {}}, env)
 
 
+class JobTimeout(Exception):
+    pass
+
+
+def _alarm(signum, frame):
+    raise JobTimeout('job wall-clock budget exceeded')
+
+
 def job(j):
     """worker: explore one harness (with preset choices) and discharge."""
+    import signal
+    signal.signal(signal.SIGALRM, _alarm)
+    signal.alarm(int(j['cfg'].get('job_timeout_s', 900 if ARGS.tier == 'quick' else 3600)))
     try:
         return job_inner(j)
     except Exception as e:
-        return dict(harness=j['harness'], presets=j['presets'], error='%s: %s' % (type(e).__name__, e),
-                    tb=traceback.format_exc())
+        return dict(harness=j['harness'], presets=j['presets'] if len(j['presets']) < 8 else {'preset': j.get('tag', '')},
+                    error='%s: %s' % (type(e).__name__, e), tb=traceback.format_exc())
+    finally:
+        signal.alarm(0)
 
 
 def job_inner(j):
@@ -175,7 +202,7 @@ def job_inner(j):
     fpops.CTX.pending = []
     fpops.CTX.assumptions = set()
     opts = dict(hc.get('opts', {}))
-    opts['merge'] = hc.get('merge', [])
+    opts['merge'] = list(hc.get('merge', [])) + ([] if hc.get('no_default_merge') else DEFAULT_MERGE)
     ex = symex.Exec(PROG, params=hc.get('params', {}), presets=j['presets'], opts=opts)
     ex.gobj = BASE_EX.gobj
     ex.base = BASE_EX.base
@@ -191,6 +218,7 @@ def job_inner(j):
     ext_s = hc.get('ext_s', 60 if ARGS.tier == 'quick' else 300)
     # group identical (label, pc, neg) obligations
     seen = {}
+    confirmed = {}
     nsolve = 0
     tsolve = 0.0
     for ob in res.obligations:
@@ -217,18 +245,8 @@ def job_inner(j):
             for k, (kind, bits, term) in ob.nondet.items():
                 vals.setdefault(k, 0)
             case = values_to_case(short, vals, ob.choices, hc.get('params', {}), j['presets'])
-            nat, out = run_native(pkgdir, [case], WORK, 'cx')
-            rec['native'] = nat[0][:2] if nat[0] else None
             rec['case'] = case
-            reproduced = nat[0] is not None and nat[0][0] in ('fail', 'panic')
-            if ob.kind == 'panic':
-                reproduced = nat[0] is not None and nat[0][0] == 'panic'
-            if ob.kind in ('frame', 'unwind'):
-                reproduced = True  # decided by the executor's own monitor
-            if not reproduced:
-                rec['verdict'] = 'spurious'
-                break
-            # known finding?
+            # which known finding (if any) does the model match?
             hit = None
             for f in findings:
                 if f.get('label') and f['label'] not in ob.label:
@@ -246,6 +264,26 @@ def job_inner(j):
                 if s.check() == z3.sat:
                     hit = (f, p)
                     break
+            ckey = (ob.label, hit[0]['id'] if hit else None)
+            if ckey in confirmed:
+                # the same assertion (and the same finding class) was already
+                # reproduced natively in this job: do not replay again
+                reproduced = True
+                rec['native'] = ['fail', 'same assertion already reproduced natively on another path']
+                nat = [rec['native']]
+            else:
+                nat, out = run_native(pkgdir, [case], WORK, 'cx')
+                rec['native'] = nat[0][:2] if nat[0] else None
+                reproduced = nat[0] is not None and nat[0][0] in ('fail', 'panic')
+                if ob.kind == 'panic':
+                    reproduced = nat[0] is not None and nat[0][0] == 'panic'
+                if ob.kind in ('frame', 'unwind'):
+                    reproduced = True  # decided by the executor's own monitor
+                if reproduced:
+                    confirmed[ckey] = True
+            if not reproduced:
+                rec['verdict'] = 'spurious'
+                break
             if hit is None:
                 rec['verdict'] = 'violation'
                 rec['native_msg'] = nat[0][1]
@@ -255,6 +293,7 @@ def job_inner(j):
             if len(excluded) > 8:
                 rec['verdict'] = 'unknown'
                 break
+            continue
         seen[key] = rec
         obs.append(rec)
     # validation samples: a model of a few finished paths, to be replayed natively
@@ -318,6 +357,8 @@ def run(pid, seed, t0):
     OVERLAY = build_overlay(WORK)
     if ARGS.replay:
         return do_replay(pid, ARGS.replay)
+    if not ARGS.only:
+        shutil.rmtree(os.path.join(ROOT, 'replays', pid), ignore_errors=True)
     cfgmod = load_cfg(pid)
     ssa = export(WORK, OVERLAY, debug=getattr(cfgmod, 'DEBUG_PKGS', ''))
     t_export = time.time() - t0
@@ -369,6 +410,8 @@ def run(pid, seed, t0):
                     r['harness'].split('.H_')[-1], (r.get('tag') or json.dumps(r['presets']))[:18] if r['presets'] else '', r['paths'],
                     len(r['obligations']), nv, nu, r['wall']))
                 if ARGS.verbose:
+                    for n in r['notes'][:10]:
+                        log('      note: ' + n[:200])
                     for o in r['obligations']:
                         log('      %-9s %-9s %6.2fs %-10s %s' % (o['verdict'], o['solver'], o['time'], o['kind'], o['label'][:90]))
     return finish(pid, seed, t0, t_export, results, known)
